@@ -64,6 +64,10 @@ GenApiAny ==
     \/ "suspend" \in Ops /\ \E c \in Sub :
          \/ ChildSuspend(c) /\ Api([a |-> "ChildSuspend", c |-> c, p |-> parent[c]])
          \/ ChildUnsuspend(c) /\ Api([a |-> "ChildUnsuspend", c |-> c, p |-> parent[c]])
+    \/ "map" \in Ops /\ \E c \in Sub :
+         /\ exists[c] /\ ChildMap(c)
+         /\ Api([a |-> "ChildMap", c |-> c, p |-> parent[c],
+                 in_parent |-> "0", for_child |-> "m" \o c])
     \/ "remove" \in Ops /\ \E c \in Sub :
          ChildRemove(c) /\ Api([a |-> "ChildRemove", c |-> c, p |-> parent[c]])
     \/ "aspa" \in Ops /\ \E c \in AllCA, x \in AspaDefs :
